@@ -10,6 +10,7 @@ CONSTANTS
   AsFound_OwnNamesAccepted = FALSE
 INVARIANT TypeOK
 INVARIANT C20_Closed
+INVARIANT C20_ResolvesSolverNames
 INVARIANT C20_LoopStateOwn
 INVARIANT C20_NoNameCapture
 INVARIANT C20_HeaderTimeFirst
